@@ -335,17 +335,23 @@ def xliqtLine (s : HistState) (t : List String) : Option String :=
 
 /-- `H xopen kind lower upper ownerIsFunder`: open_position / open_position_with_token_extensions on the
     current pool (read-only): derive sentinel bounds from the price, validate the range -/
+def xopenCore (s : HistState) (lo hi : String) : Option String := do
+  let lo ← lo.toInt?
+  let hi ← hi.toInt?
+  match resolveOneSided lo hi s.pool.ts s.pool.price with
+  | .error e => pure ("err " ++ e.name)
+  | .ok (l, u) =>
+    match validateTickRange s.pool.ts l u with
+    | .error e => pure ("err " ++ e.name)
+    | .ok _ => pure s!"ok {l} {u}"
+
 def xopenLine (s : HistState) (t : List String) : Option String :=
   match t with
-  | [_kind, lo, hi, _own] => do
-    let lo ← lo.toInt?
-    let hi ← hi.toInt?
-    match resolveOneSided lo hi s.pool.ts s.pool.price with
-    | .error e => pure ("err " ++ e.name)
-    | .ok (l, u) =>
-      match validateTickRange s.pool.ts l u with
-      | .error e => pure ("err " ++ e.name)
-      | .ok _ => pure s!"ok {l} {u}"
+  | [_kind, lo, hi, _own] => xopenCore s lo hi
+  | [kind, lo, hi, _own, nt] =>
+    -- a pool that requires non-transferable positions refuses the opens without token extensions, before anything else
+    if nt == "1" && (kind == "1" || kind == "4") then some "err PositionWithTokenExtensionsRequired"
+    else xopenCore s lo hi
   | _ => none
 
 /-- `H xlock id authMode follow`: lock_position, then one follow-up instruction on the locked position, on the
